@@ -107,7 +107,8 @@ def run_generated(fz, rng, ntrees, nblocks, max_block_bytes):
         for _k in range(nblocks):
             prev_cs = world.cs
             ids = world.grow(1, rng, tx_prob=0.8, max_txs=rng.choice([1, 3, 6]), dt_choices=dtc)
-            before[ids[0]] = prev_cs
+            if ids:
+                before[ids[0]] = prev_cs
         order = world.chain.order[1:]
         chain_hex = gen.blocks_hex(world, order)
         pick = order if len(order) <= 6 else rng.sample(order, 6)
